@@ -138,6 +138,15 @@ class Server:
             for m in cmd.get("modules", []):
                 importlib.import_module(m)
             return ["ok", None]
+        if k == "rawinit":
+            if cmd.get("cwd"):
+                os.chdir(cmd["cwd"])
+            sys.path.insert(1, cmd["srcdir"])
+            for a in cmd["accept"]:
+                dds.accept_module(a)
+            for m in cmd.get("modules", []):
+                importlib.import_module(m)
+            return ["ok", None]
         if k == "set_store":
             self.set_store(cmd["store"])
             return ["ok", None]
